@@ -306,7 +306,7 @@ class MetaFile:
         }
 
         # Format piece_length attribute.
-        if piece_length:
+        if piece_length not in (None, ""):
             self.piece_length = utils.normalize_piece_length(piece_length)
             logger.debug("piece length parameter found %s", piece_length)
         else:
